@@ -209,7 +209,10 @@ class CaseCtx:
     relayout = True
 
     def _layout(self, arr):
-        if not (self.relayout and isinstance(arr, np.ndarray) and arr.ndim >= 2 and arr.size > 1 and arr.dtype != object):
+        if not (self.relayout and isinstance(arr, np.ndarray) and arr.size > 1 and arr.dtype != object):
+            return arr
+        arr = self._container(arr)
+        if arr.ndim < 2:
             return arr
         # the layout is a function of the values (first 4 kB): the same array passed twice gets the same layout, so
         # bit-level reproducibility checks are not disturbed by summation-order differences between layouts
@@ -225,6 +228,66 @@ class CaseCtx:
             view[...] = arr
             return view
         return arr
+
+    def _container(self, arr):
+        """Integer-valued float64 data (photon counts, integer wavelengths, 0/1 masks) is handed over as an int64 array in
+        two out of three cases (chosen by a hash of the values, like the layout): the same numbers in another dtype must
+        give the same answer, and code that allocates its result `like` the input silently truncates."""
+        if arr.dtype != np.float64 or arr.size > 200_000:
+            return arr
+        if not (np.all(np.isfinite(arr)) and np.all(arr == np.round(arr)) and np.all(np.abs(arr) <= 2 ** 24)):
+            return arr
+        if not np.any(arr != 0):
+            return arr          # all-zero defaults (baseline, lower bounds) say nothing about dtype handling
+        import zlib
+        if (zlib.crc32(np.ascontiguousarray(arr).tobytes()[:4096]) + 7 * int(arr.size)) % 3 == 0:
+            return arr
+        self.cells.add("dtype=int64")
+        return arr.astype(np.int64)
+
+    # -- decoy calls: before the judged call the same function is called with inputs of the same shapes, dtypes, first and
+    # last elements but different interior values (result discarded).  Properties hold for every history: an answer must
+    # not depend on what was asked before (memoisation keyed by shape / end points / length, buffers reused between calls).
+    decoy = False
+
+    @staticmethod
+    def _decoy_of(x):
+        if not (isinstance(x, np.ndarray) and x.dtype.kind == "f" and x.size >= 3 and np.all(np.isfinite(x))):
+            return x, False
+        y = np.array(x, dtype=x.dtype, order="K", copy=True)
+        if x.ndim == 1 and np.all(np.diff(x) > 0):
+            t = (x - x[0]) / (x[-1] - x[0])
+            y = x[0] + (x[-1] - x[0]) * t ** 1.37          # still strictly ascending, same end points
+            y[0], y[-1] = x[0], x[-1]
+            return y.astype(x.dtype), True
+        flat = y.reshape(-1)                                # copy for non-contiguous input
+        j = np.arange(1, flat.size - 1)
+        scale = float(np.mean(np.abs(flat))) or 1.0
+        flat[1:-1] = flat[1:-1] * (1.0 + 0.23 * np.sin(1.7 * j)) + 0.11 * scale * np.abs(np.cos(0.9 * j)) * np.sign(flat[1:-1])
+        return flat.reshape(x.shape), True
+
+    def _decoy_call(self, fn, a, k):
+        da, dk, any_changed = [], {}, False
+        for x in a:
+            y, ch = self._decoy_of(x)
+            da.append(y)
+            any_changed |= ch
+        for kk, v in k.items():
+            y, ch = self._decoy_of(v)
+            dk[kk] = y
+            any_changed |= ch
+        if not any_changed:
+            return
+        n_ev = len(self.events) if self.events is not None else 0
+        try:
+            fn(*da, **dk)
+        except CaseAbort:
+            raise
+        except Exception:  # noqa  (the decoy input may be illegitimate: nothing is judged on it)
+            pass
+        if self.events is not None:
+            del self.events[n_ev:]
+        self.cells.add("decoy-call")
 
     # -- purity: arrays handed to the code under test must come back byte-identical
     def _snapshot(self, a, k):
@@ -248,6 +311,8 @@ class CaseCtx:
         where = _where or getattr(fn, "__qualname__", getattr(fn, "__name__", str(fn)))
         a = tuple(self._layout(x) for x in a)
         k = {kk: self._layout(v) for kk, v in k.items()}
+        if self.decoy:
+            self._decoy_call(fn, a, k)
         before = self._snapshot(a, k)
         try:
             res = fn(*a, **k)
